@@ -34,6 +34,12 @@ type MainCfg struct {
 	Extra func(p *Program, rr RunResult, rn *Runner) string
 	// Directed may supply a specially shaped program for job i (nil = use the random generator).
 	Directed func(r *vlib.RNG, i int) *Program
+	// ReplayOther (optional) is tried first on a replay file: it returns true when the file holds one of the property's own
+	// cases that are not programs (it has then re-run it and recorded the outcome in res).
+	ReplayOther func(path string, res *vlib.Result) bool
+	// Post (optional) runs after all programs, before the case files are written: directed scenario families that are not
+	// programs of this driver.
+	Post func(a vlib.Args, res *vlib.Result)
 }
 
 // Main runs the driver: corpus/replay handling, parallel program runs, shrinking, K-case files, result.
@@ -50,6 +56,9 @@ func Main(mc MainCfg) {
 	}
 	plainHooks := Hooks{CheckEvery: 1}
 	if a.Replay != "" {
+		if mc.ReplayOther != nil && mc.ReplayOther(a.Replay, res) {
+			return
+		}
 		p, err := LoadProgram(a.Replay)
 		if err != nil {
 			fmt.Println("cannot load replay:", err)
@@ -173,5 +182,8 @@ func Main(mc MainCfg) {
 	}
 	close(jobs)
 	wg.Wait()
+	if mc.Post != nil {
+		mc.Post(a, res)
+	}
 	res.WriteCases(mc.Header, "lsmcase", "mismatches", kcases, 16)
 }
